@@ -1,0 +1,19 @@
+//go:build verif
+
+package promapi
+
+// Contracts checked by /verif/engine (govc). Comment-only file: no code is compiled from it.
+
+//@ spec func minT(a time.Time, b time.Time) time.Time = a.Before(b) ? a : b
+//@ spec func maxT(a time.Time, b time.Time) time.Time = a.After(b) ? a : b
+//@ spec func gap(a MetricTimeRange, b MetricTimeRange) time.Duration = maxT(a.Start, b.Start).Sub(minT(a.End, b.End))
+//@ spec func staggered(a MetricTimeRange, b MetricTimeRange) bool =
+//@      (a.Start.Before(b.Start) && a.End.Before(b.End)) || (b.Start.Before(a.Start) && b.End.Before(a.End))
+
+//@ func Overlaps [C13]
+//@   requires !a.End.Before(a.Start) && !b.End.Before(b.Start) && step >= 0
+//@   ensures ok ==> a.Fingerprint == b.Fingerprint && gap(a, b) <= step
+//@   ensures ok ==> c.Start == minT(a.Start, b.Start) && c.End == maxT(a.End, b.End)
+//@   ensures a.Fingerprint == b.Fingerprint && gap(a, b) <= step && staggered(a, b) ==> ok
+//@   ensures !ok ==> c == TimeRange{}
+//@   safe
